@@ -1,7 +1,7 @@
 #!/bin/bash
 # usage: gate.sh [ids...]   (no ids = every .v file)
 # fails if the Coq development declares axioms, leaves admits or switches off kernel checks
-cd /verif/coq
+cd "$(dirname "$0")/../coq"
 if [ $# -eq 0 ]; then files=$(find . -name '*.v' | sort); else
   files=$(ls Base/*.v); for i in "$@"; do files="$files $(ls $i/*.v 2>/dev/null) Properties/$i.v"; done
   # Base files prefixed with an unclaimed property id are only checked when that property is claimed: keep all Base files that compiled
